@@ -113,6 +113,8 @@ def run_invocation(spec):
     os.chdir(os.path.join(root, spec.get("cwd", "")))
     for k in [k for k in os.environ if k.startswith("COND_")]:
         del os.environ[k]
+    # as if `cond` were started from inside a task of an enclosing Conductor run
+    os.environ.update(spec.get("outer_env") or {})
     rng = random.Random(spec.get("seed", 0))
     sname = spec.get("strategy", "blocked-fifo")
     strategy = dict(STRATEGIES[sname])
